@@ -894,14 +894,18 @@ package template
 //@   serves C06
 //@   option embedded nameSpace.esc
 //@   option allocates
-//@   option modifies nameSpace.esc.called nameSpace.esc.actionNodeEdits nameSpace.esc.templateNodeEdits nameSpace.esc.textNodeEdits parse_PipeNode.Cmds parse_TemplateNode.Name#b parse_TemplateNode.Name#o parse_TemplateNode.Name#l parse_TextNode.Text#b parse_TextNode.Text#o parse_TextNode.Text#l
+//@   option modifies nameSpace.esc.called nameSpace.esc.actionNodeEdits nameSpace.esc.templateNodeEdits nameSpace.esc.textNodeEdits parse_PipeNode.Cmds#refs parse_PipeNode.Cmds#n parse_CommandNode.Args#refs parse_TemplateNode.Name#b parse_TemplateNode.Name#o parse_TemplateNode.Name#l parse_TextNode.Text#b parse_TextNode.Text#o parse_TextNode.Text#l
 //@   requires !isnil(e.ns) && !isnil(e.ns.set)
 //@   requires members: forallkey(w, haskeym(e.ns.set, w) ==> !isnil(e.ns.set[w]) && !isnil(e.ns.set[w].text))
 //@   requires derivedok: forallkey(w, haskeym(e.derived, w) ==> !isnil(e.derived[w]))
 //@   requires editkeys: forallref(p, haskeym(e.actionNodeEdits, p) || haskeym(e.templateNodeEdits, p) || haskeym(e.textNodeEdits, p) ==> !isnil(p))
+//@   requires actionnodes: ACTIONNODES()
+//@   ensures actionnodes: ACTIONNODES()
 //@   ensures once: fresh(e.actionNodeEdits) && fresh(e.templateNodeEdits) && fresh(e.textNodeEdits) && fresh(e.called)
 //@   ensures cleared: forallref(p, !haskeym(e.actionNodeEdits, p) && !haskeym(e.templateNodeEdits, p) && !haskeym(e.textNodeEdits, p))
 //@   ensures memo: e.output == old(e.output) && e.derived == old(e.derived)
+//@   loop 3
+//@     invariant ACTIONNODES()
 
 //@ func (e *escaper) escapeTree(c context, node parse.Node, name string, line int) (r context, dname string)
 //@   serves C01 C02 C05 C06 C08
@@ -1220,3 +1224,46 @@ package template
 //@   option locks true
 //@   option modifies Template.escapeErr Template.Tree Template.text TT_Template.Tree nameSpace.escaped nameSpace.set map[seq]ref:Template#dom map[seq]ref:Template#val
 //@   ensures frozen: old(t.nameSpace.escaped) ==> !isnil(err) && isnil(r) && nochange()
+
+//@ func normalizeEscFn(e string) (r string)
+//@   serves C02 C03
+//@   ensures html: e == "_sanitizeHTML" || e == "_sanitizeRCDATA" ==> r == "html"
+//@   ensures urlquery: e == "_queryEscapeURL" || e == "_normalizeURL" ==> r == "urlquery"
+//@   ensures other: e != "_sanitizeHTML" && e != "_sanitizeRCDATA" && e != "_queryEscapeURL" && e != "_normalizeURL" ==> sameview(r, e)
+
+//@ func escFnsEq(a, b string) (r bool)
+//@   serves C02 C03
+//@   option uses seq_extensionality
+//@   ensures htmla: a == "html" ==> r == (b == "html" || b == "_sanitizeHTML" || b == "_sanitizeRCDATA")
+//@   ensures urlquerya: a == "urlquery" ==> r == (b == "urlquery" || b == "_queryEscapeURL" || b == "_normalizeURL")
+//@   ensures html: b == "html" ==> r == (a == "html" || a == "_sanitizeHTML" || a == "_sanitizeRCDATA")
+//@   ensures urlquery: b == "urlquery" ==> r == (a == "urlquery" || a == "_queryEscapeURL" || a == "_normalizeURL")
+
+//@ func ensurePipelineContains(p *parse.PipeNode, s []string) ()
+//@   serves C01 C02 C03 C06 C08
+//@   option allocates
+//@   option modifies parse_PipeNode.Cmds#refs parse_PipeNode.Cmds#n parse_CommandNode.Args#refs
+//@   requires !isnil(p)
+//@   requires cmds: forall(k, 0, len(p.Cmds), !isnil(at(p.Cmds, k)) && len(at(p.Cmds, k).Args) > 0)
+//@   ensures nothing: len(s) == 0 ==> len(p.Cmds) == old(len(p.Cmds)) && forall(k, 0, len(p.Cmds), at(p.Cmds, k) == old(at(p.Cmds, k)))
+//@   ensures taillen: len(s) > 0 ==> len(p.Cmds) >= len(s)
+//@   ensures tailshape: len(s) > 0 ==> forall(k, 0, len(s), !isnil(at(p.Cmds, len(p.Cmds) - len(s) + k)) && len(at(p.Cmds, len(p.Cmds) - len(s) + k).Args) == 1 && dyntypeis(at(at(p.Cmds, len(p.Cmds) - len(s) + k).Args, 0), "parse_IdentifierNode"))
+//@   ensures tailmerged: len(s) > 0 ==> forall(k, 0, len(s), old(PREDEF(p)) && ESCEQ(old(LASTID(p)), at(s, k)) ==> seqeq(asref(at(at(p.Cmds, len(p.Cmds) - len(s) + k).Args, 0), "parse_IdentifierNode").Ident, old(LASTID(p))))
+//@   ensures tailnames: len(s) > 0 ==> forall(k, 0, len(s), !(old(PREDEF(p)) && ESCEQ(old(LASTID(p)), at(s, k))) ==> seqeq(asref(at(at(p.Cmds, len(p.Cmds) - len(s) + k).Args, 0), "parse_IdentifierNode").Ident, at(s, k)))
+//@   ensures wf: forall(k, 0, len(p.Cmds), !isnil(at(p.Cmds, k)) && len(at(p.Cmds, k).Args) > 0)
+//@   ensures otherpipes: forallref(q, q != p ==> len(asref(q, "parse_PipeNode").Cmds) == old(len(asref(q, "parse_PipeNode").Cmds)) && forall(k, 0, len(asref(q, "parse_PipeNode").Cmds), at(asref(q, "parse_PipeNode").Cmds, k) == old(at(asref(q, "parse_PipeNode").Cmds, k))))
+//@   loop 1
+//@     invariant len(s) == len(old(s)) && ESCEQ(esc, esc)
+//@     invariant forall(k, 0, i, ite(ESCEQ(esc, at(old(s), k)), seqeq(at(s, k), esc), sameview(at(s, k), at(old(s), k))))
+//@     invariant forall(k, i, len(s), sameview(at(s, k), at(old(s), k)))
+//@     invariant dup == exists(k, 0, i, ESCEQ(esc, at(old(s), k)))
+//@   loop 2
+//@     invariant len(newCmds) == pipelineLen + rangeidx && 0 <= pipelineLen && pipelineLen <= len(p.Cmds)
+//@     invariant forall(k, 0, pipelineLen, at(newCmds, k) == at(p.Cmds, k))
+//@     invariant forall(k, 0, rangeidx, IDENTCMD(at(newCmds, pipelineLen + k), at(s, k)))
+
+//@ func newIdentCmd(identifier string, pos parse.Pos) (r *parse.CommandNode)
+//@   serves C01 C02 C03 C06 C08
+//@   option allocates
+//@   ensures shape: !isnil(r) && fresh(r) && len(r.Args) == 1 && !isnil(at(r.Args, 0))
+//@   ensures ident: dyntypeis(at(r.Args, 0), "parse_IdentifierNode") && seqeq(asref(at(r.Args, 0), "parse_IdentifierNode").Ident, identifier)
